@@ -102,6 +102,7 @@ class TlcResult:
         self.wall = 0.0
         self.coverage = {}
         self.counters = {}
+        self.pool = None
 
 
 def stage_spec(run):
@@ -151,6 +152,8 @@ def tlc(run, module, cfg, workers=1, env=None, heap="3g", timeout=1800, extra=No
                 raise Infra("unparsable CASE line from TLC: " + line[:200])
         elif line.startswith('"MISMATCH '):
             res.mismatches.append(json.loads(json.loads(line)[9:]))
+        elif line.startswith('"POOL '):
+            res.pool = json.loads(json.loads(line)[5:])
         elif line.startswith('"COUNTERS '):
             c = json.loads(json.loads(line)[9:])
             res.counters = {int(k): v for k, v in (c.items() if isinstance(c, dict) else enumerate(c, 2))}
@@ -301,6 +304,27 @@ def finish(run, level, coverage, assumptions):
     return 1 if nviol else 0
 
 
+def shards_by_group(start):
+    """split a trace into shards at events of type `start` (which open a logical trace)"""
+    def split(events, n):
+        groups, cur = [], []
+        for ev in events:
+            if ev["e"] == start and cur:
+                groups.append(cur)
+                cur = []
+            cur.append(ev)
+        if cur:
+            groups.append(cur)
+        shards = [[] for _ in range(n)]
+        sizes = [0] * n
+        for g in sorted(groups, key=len, reverse=True):
+            i = sizes.index(min(sizes))
+            shards[i].extend(g)
+            sizes[i] += len(g)
+        return shards
+    return split
+
+
 def chunk(seq, n):
     n = max(1, n)
     k = (len(seq) + n - 1) // n
@@ -330,6 +354,8 @@ def simple_family(run, fam, replay=None):
                             "(independent of /repo)\n%s" % (tag, r.violated, "\n".join(r.lines[-60:])))
             mc_info.append({"config": tag, "states": r.distinct, "cases_exported": len(r.cases)})
             cases.extend(r.cases)
+            if r.pool is not None:
+                run.pool = r.pool
         for module, cfg, tag, what in fam.get("mc_must_violate", {}).get(run.tier, []):
             r = tlc(run, module, cfg, workers=NCPU, heap="6g", tag=tag, expect_violation=True)
             if not r.violated:
